@@ -117,6 +117,28 @@ fn f32_same_opt(a: &[Rec<f32>], b: &[Rec<f32>]) -> bool {
         })
 }
 
+/// what a terminal "currently sees", assembled from its separate state and command reads (not from the combined read under
+/// test): both when present, stamped with the state's time when there is a state, else with the command's; nothing if neither
+fn seen_at(term: Term) -> Option<Datum<TerminalData>> {
+    let (st, cmd) = (read_state(term), read_command(term));
+    let time = match (st, cmd) {
+        (Some(s), _) => s.time,
+        (None, Some(c)) => c.time,
+        (None, None) => return None,
+    };
+    Some(Datum::new(time, TerminalData { time, command: cmd.map(|c| c.value), state: st.map(|s| s.value) }))
+}
+fn same_seen(a: &Option<Datum<TerminalData>>, b: &Option<Datum<TerminalData>>) -> bool {
+    match (a, b) {
+        (None, None) => true,
+        (Some(x), Some(y)) => x.time == y.time && x.value.time == y.value.time && x.value.command == y.value.command && match (x.value.state, y.value.state) {
+            (None, None) => true,
+            (Some(p), Some(q)) => flat(p).iter().zip(flat(q).iter()).all(|(u, v)| same_f32(*u, *v)),
+            _ => false,
+        },
+        _ => false,
+    }
+}
 fn apply_writes(r: &WRound, t: i64, term: Term, ext: Option<Term>) {
     if let Some(v) = r.own_state {
         set_state(term, Datum::new(Time(t), st(v)));
@@ -156,6 +178,8 @@ pub fn check(s: &Scenario) -> CheckResult {
                 accept.set(r.inner_accept);
                 upd_err.set(r.inner_update_err);
                 let seen = read_data(term);
+                let expected_seen = seen_at(term);
+                ensure!(same_seen(&seen, &expected_seen), "C20/Actuator/combined-read", "round {}: the terminal's combined read is {:?}, but its state read is {:?} and its command read {:?}", ri, seen, read_state(term), read_command(term));
                 log.borrow_mut().clear();
                 let ret = catch(|| w.update());
                 ensure!(ret.is_ok(), "C20/Actuator/panic", "round {}: update panicked: {:?}", ri, ret);
